@@ -44,14 +44,23 @@ TRUSTED = ['numpy np.asarray / np.unique(return_inverse) used by _stack_key_colu
 ASSUMPTIONS = ['fields are well-formed (index dataset = prefix sums of entry lengths) and all columns have the same length',
                'keys and targets are totally ordered (no NaN)', 'a sorted hint is truthful',
                'strings contain no NUL characters (numpy S/U arrays drop trailing NULs)']
-LEVEL_TEXT = ('Theorems in coq/Props/C07.v prove for all inputs (unbounded rows, key columns, entry lengths) that the model '
-              'of DataFrame.groupby + count/min/max/first/last/distinct, drop_duplicates and Session.aggregate_* returns '
-              'exactly the row-level specification: one row per distinct key tuple, ascending, aggregate computed from '
-              'exactly the members of the group in original row order; with or without a truthful hint; counts sum to '
-              'the number of rows. The model is tied to the repository by the differential run described in `rule`.')
-LEVEL_NOTE = ('The coercion performed by numpy when key columns are stacked into one 2-d array happens before any '
-              'kernel runs and is outside the model (after fix F-C07b it is rank-preserving); it is covered by the '
-              'correspondence only.')
+LEVEL_TEXT = ('12 theorems in coq/Props/C07.v (all closed under the global context) prove for all inputs (unbounded rows, key '
+              'columns, groups, entry lengths): the row-level composition (stable lexicographic sort + spans of the sorted key '
+              'rows + ANY per-span reduction = that reduction applied to the members of each distinct key tuple in original '
+              'row order, keys ascending; span lengths = group sizes; counts sum to the row count; a sorted input is left '
+              'alone so the hint changes nothing); that the model of DataFrame.groupby never fails on a well-formed frame and '
+              'returns exactly those spans / that permutation; and at dataframe level that drop_duplicates / distinct, the key '
+              'columns of every call (all field classes) and count equal the specification, and that min/max/first/last of a '
+              'plain (numeric, categorical, timestamp, fixed-string) target column is the group-wise aggregate. The model is '
+              'tied to the repository by the differential run described in `rule`, where every case is also judged against '
+              'the extracted specification.')
+LEVEL_NOTE = ('Partial: the frame-level statement for indexed-string TARGET columns and the name bookkeeping over several '
+              'targets / calls are not composed in Coq (ingredients: C08 string_argmin/argmax_correct, C09 '
+              'c09_field_index_correct, sorted_spans_reduce_is_groupwise); Session.aggregate_* / Session.distinct are modelled '
+              'and checked by correspondence against the spec, their Coq statement follows from C08 '
+              '(session_apply_spans_src_ok + apply_spans_*_correct) but is not restated here. The coercion performed by '
+              'numpy when key columns are stacked into one 2-d array happens before any kernel runs and is outside the '
+              'model (after fix F-C07b it is rank-preserving); it is covered by the correspondence only.')
 
 _np = None
 _Session = None
